@@ -492,6 +492,9 @@ func partialIfThenElse(env Env, v ast.NodeTypeIfThenElse) (ast.IsNode, error) {
 		thenNode = extError(thenErr)
 	} else if tv, ok := thenNode.(ast.NodeValue); ok && containsVariable(tv.Value) {
 		thenNode = v.Then
+	} else if ok && containsIgnore(tv.Value) {
+		// a branch value with an ignored value nested inside must not be frozen into the residual
+		return nil, errIgnore
 	}
 	elseNode, elseErr := partial(env, v.Else)
 	if errors.Is(elseErr, errIgnore) {
@@ -500,6 +503,8 @@ func partialIfThenElse(env Env, v ast.NodeTypeIfThenElse) (ast.IsNode, error) {
 		elseNode = extError(elseErr)
 	} else if ev, ok := elseNode.(ast.NodeValue); ok && containsVariable(ev.Value) {
 		elseNode = v.Else
+	} else if ok && containsIgnore(ev.Value) {
+		return nil, errIgnore
 	}
 	return ast.NodeTypeIfThenElse{If: ifNode, Then: thenNode, Else: elseNode}, nil
 }
